@@ -99,11 +99,19 @@ def admissible_subsets(rng, p, want=4):
     return out
 
 
-def make_ls_cases(ctx, nprob):
+def ls_quota(nprob, thorough=False):
+    """guaranteed problems on top of the historical mix (tools/lib/gen_ls.py): free-network Jacobians with a datum
+    defect of 3 and 4 (every kind of FREE_KINDS: the datum transformations of a real free network) and two-part
+    problems, each with the constraint set 'all' and PROPER admissible constraint sets (coordinates of some points)"""
+    return {"free": max(8, nprob // 6), "parts": max(4, nprob // 12)} if thorough else {"free": 8, "parts": 4}
+
+
+def make_ls_cases(ctx, nprob, quota=None):
     """returns cases, meta=(pi, p, S, alg, entry) and groups {(pi, alg, entry): [case index…]}"""
     cases, meta, groups = [], [], {}
-    pi = made = 0
-    guard = 0
+    quota = ls_quota(nprob, ctx.thorough) if quota is None else quota
+    probs = []
+    made = guard = 0
     while made < nprob and guard < 40 * nprob:
         guard += 1
         p = g.gen_problem(ctx.rng)
@@ -113,7 +121,15 @@ def make_ls_cases(ctx, nprob):
         if len(subs) < 2:
             continue
         made += 1
-        pi += 1
+        probs.append((p, subs))
+    for fam, count in (("free", quota.get("free", 0)), ("parts", quota.get("parts", 0))):
+        for k in range(count):
+            family = "free-" + g.FREE_KINDS[k % len(g.FREE_KINDS)] if fam == "free" else "parts"
+            p = g.gen_problem(ctx.rng, family=family, correlated=(k % 3 == 2))
+            subs = [list(range(1, p["n"] + 1))] + [S for S, ok in g.gen_proper_subsets(ctx.rng, p, 3, 0)]
+            if len(subs) >= 2:
+                probs.append((p, subs))
+    for pi, (p, subs) in enumerate(probs, 1):
         for alg in ALGS:
             for entry in ("solver", "adj"):
                 if entry == "solver" and alg != "env" and not p["unit_cov"]:
@@ -205,6 +221,10 @@ def ls_stream(ctx, corr, nprob, exe=None, with_model=True):
         corr.count("ls_correlated" if not p["unit_cov"] else "ls_unit_cov")
         corr.count("ls_proper_subset" if len(S) < p["n"] else "ls_all_unknowns")
         corr.count(f"ls_defect_{min(p['defect'], 3)}")
+        if p["defect"] >= 3:
+            corr.count(f"ls_cases_defect_exactly_{p['defect']}")
+            if len(S) < p["n"]:
+                corr.count("ls_cases_defect_ge3_proper_subset")
         site = f"{alg}/{entry}"
         if i in crashes:
             corr.fail("solver crashed / sanitizer report", {"stream": "ls", "ops": c}, site, crashes[i][1])
@@ -250,6 +270,9 @@ def ls_stream(ctx, corr, nprob, exe=None, with_model=True):
                                                "subset": meta[i][2], "subset2": meta[j][2]},
                           f"{alg}/{entry}", " | ".join(impl[i]) + "  ||  " + " | ".join(impl[j]))
     corr.count("ls_pairs_checked", npairs)
+    for k, need in (("ls_cases_defect_exactly_3", 60), ("ls_cases_defect_exactly_4", 60), ("ls_cases_defect_ge3_proper_subset", 120)):
+        if with_model and corr.stats.get(k, 0) < need:
+            corr.inconclusive.append(f"ls case mix: {k} = {corr.stats.get(k, 0)} < {need}")
     return npairs
 
 
